@@ -2,6 +2,7 @@ package identity
 
 import (
 	"bytes"
+	"crypto"
 	"encoding/json"
 	"fmt"
 	"io"
@@ -221,6 +222,28 @@ func (k *Key) PGPEntity() *openpgp.Entity {
 		PrimaryKey: k.public,
 		PrivateKey: k.private,
 		Identities: map[string]*openpgp.Identity{},
+	}
+	if k.private == nil {
+		// Without the private key we can't produce a real self-signature, and we don't need one: this
+		// entity is only used to verify someone else's signature. The keyring lookup only wants an
+		// identity whose self-signature declares the key usable for signing.
+		uid := packet.NewUserId("name", "", "")
+		isPrimary := true
+		e.Identities[uid.Id] = &openpgp.Identity{
+			Name:   uid.Id,
+			UserId: uid,
+			SelfSignature: &packet.Signature{
+				SigType:     packet.SigTypePositiveCert,
+				PubKeyAlgo:  k.public.PubKeyAlgo,
+				Hash:        crypto.SHA256,
+				IsPrimaryId: &isPrimary,
+				FlagsValid:  true,
+				FlagSign:    true,
+				FlagCertify: true,
+				IssuerKeyId: &k.public.KeyId,
+			},
+		}
+		return e
 	}
 	// somehow initialize the proper fields with identity, self-signature ...
 	err := e.AddUserId("name", "", "", nil)
